@@ -1,43 +1,14 @@
-"""Static configuration of the checks: variants of the live tree, builds per tier, rules."""
+"""Loads the per-property configuration files lib/props_d/CNN.py (one dict PROP each)."""
+import importlib.util, os, sys
 
-FEAT = ["serde", "bytemuck", "mint", "rkyv", "bytecheck", "approx", "rand"]
+sys.path.insert(0, os.path.dirname(os.path.abspath(__file__)))
+from props_common import VARIANTS, B, FEAT  # noqa: F401,E402
 
-VARIANTS = {
-    "simd": [],
-    "scalar": ["scalar-math"],
-    "libm": ["libm"],
-    "assert": ["glam-assert"],
-    "scalar_assert": ["scalar-math", "glam-assert"],
-    "dbgassert": ["debug-glam-assert"],
-    "feat": FEAT,
-    "scalar_feat": FEAT + ["scalar-math"],
-    "core": ["core-simd"],
-    "core_assert": ["core-simd", "glam-assert"],
-    "core_feat": FEAT + ["core-simd"],
-}
-
-
-def B(build, scale=1.0, primary=None):
-    d = {"build": build, "scale": scale}
-    if primary is not None:
-        d["primary"] = primary
-    return d
-
-
-PROPS = {
-    "C01": {
-        "crate": "c01",
-        "rule": "Each case is one operand tuple (all lanes drawn independently from the special-value lattice of DESIGN.md 3.1, "
-                "related pairs for binary ops) evaluated by every element-wise operation and operator form of one float vector type in one backend; "
-                "exhaustive/strided sweeps enumerate f32 bit patterns for the unary lane ops. A case is non-trivial when some operand lane is zero, subnormal, "
-                "inf, NaN, an exact .5 tie or >= 2^23 (2^52), or operands are related (equal/negated/1ulp apart/huge or tie quotient); distinct = distinct hash of (type, backend, operand bits).",
-        "builds": {
-            "quick": [B("stable"), B("fma", 0.25), B("nightly", 0.25, False)],
-            "thorough": [B("stable"), B("fma", 0.5), B("native", 0.25), B("nightly", 0.5, False)],
-        },
-        "assumptions": [
-            "Rust's f32/f64 primitives (and libm's functions in the libm build, for exp/powf only) are the reference",
-            "NEON and wasm32 sources are not compiled or executed (no target available offline)",
-        ],
-    },
-}
+PROPS = {}
+_d = os.path.join(os.path.dirname(os.path.abspath(__file__)), "props_d")
+for _f in sorted(os.listdir(_d)):
+    if _f.endswith(".py"):
+        _spec = importlib.util.spec_from_file_location("props_d_" + _f[:-3], os.path.join(_d, _f))
+        _m = importlib.util.module_from_spec(_spec)
+        _spec.loader.exec_module(_m)
+        PROPS[_f[:-3]] = _m.PROP
